@@ -433,6 +433,31 @@ func c06ops() []c06op {
 				return out
 			}})
 	}
+	ops = append(ops,
+		c06op{"FlushToDisk", func(r *rigT, s string) string {
+			if !strings.HasPrefix(s, "mem/") {
+				r.flush(s)
+			}
+			return "ok"
+		}, func(m *refkv, now int64) string { return "ok" }},
+		c06op{"CloseAndReopen", func(r *rigT, s string) string {
+			if !strings.HasPrefix(s, "mem/") {
+				r.closeSwamp(s)
+			}
+			return "ok"
+		}, func(m *refkv, now int64) string {
+			if !c06persistent {
+				return "ok" // no-op on the in-memory configuration
+			}
+			m.ghost = map[string]string{} // hidden in-flight records die with the swamp object
+			if !m.exists() {
+				m.shell = false
+			}
+			for _, r := range m.recs {
+				r.metaUnknown = r.metaUnknown // unsaved in-memory metadata may or may not survive: stays unspecified
+			}
+			return "ok"
+		}})
 	ops = append(ops, c06op{"Destroy",
 		func(r *rigT, s string) string {
 			_, err := r.gw.Destroy(bg, &hydrapb.DestroyRequest{IslandID: 1, SwampName: s})
@@ -637,7 +662,7 @@ func TestC06(t *testing.T) {
 	r.Extra["alphabet_size"] = len(ops)
 	r.Extra["read_suite"] = len(reads)
 	r.Extra["depth"] = depth
-	r.Rule = fmt.Sprintf("breadth-first search over reference-model states (refkv: key -> {type, value, five metadata fields}), %d requests on keys a,b (Set with the four CreateIfNotExist/Overwrite combinations, three value types, a uint32 set and metadata; Delete; IncrementInt32 with every relational condition true/false and SetIfExist/SetIfNotExist metadata; IncrementInt8/Uint64/Float64; Uint32SlicePush/Delete/Size/IsValueExist; ShiftByKeys; Destroy), depth %d, on an in-memory swamp and on a persistent one; a model state is expanded once; each transition replays the shortest history on a fresh swamp of an in-process server and issues one more request; its response, then %d read requests (Get, IsKeyExist per key; GetAll; GetByKeys; Count; AreKeysExist; IsSwampExist) are compared with the model; the client thread must return (exact deadlock detection). Fields the documentation leaves open are marked unspecified in the model and not compared (listed in assumptions). Non-trivial = transitions whose request changes the model state", len(ops), depth, len(reads))
+	r.Rule = fmt.Sprintf("breadth-first search over reference-model states (refkv: key -> {type, value, five metadata fields}), %d requests on keys a,b (Set with the four CreateIfNotExist/Overwrite combinations, three value types, a uint32 set and metadata; Delete; IncrementInt32 with every relational condition true/false and SetIfExist/SetIfNotExist metadata; IncrementInt8/Uint64/Float64; Uint32SlicePush/Delete/Size/IsValueExist; ShiftByKeys; Destroy), depth %d, on an in-memory swamp, a persistent one (write interval 1 s) and an immediate-write one; FlushToDisk (the write-interval flush) and CloseAndReopen are part of the alphabet for the persistent swamps; a model state is expanded once; each transition replays the shortest history on a fresh swamp of an in-process server and issues one more request; its response, then %d read requests (Get, IsKeyExist per key; GetAll; GetByKeys; Count; AreKeysExist; IsSwampExist) are compared with the model; the client thread must return (exact deadlock detection). Fields the documentation leaves open are marked unspecified in the model and not compared (listed in assumptions). Non-trivial = transitions whose request changes the model state", len(ops), depth, len(reads))
 	r.Assumptions = []string{
 		"single client, requests one at a time; virtual clock advanced 1 s per request",
 		"unspecified (not compared): whether a swamp that an operation summoned but stored nothing in 'exists'; metadata of a record after an Increment whose condition failed; Uint32SlicePush/IsValueExist on a key holding another type; effect of Uint32SliceDelete on a key holding another type",
@@ -645,7 +670,7 @@ func TestC06(t *testing.T) {
 	}
 	first := !r.IsWorker() || r.Mine(0)
 	r.Parallel(16, "TestC06", func() {
-		for _, conf := range []string{"mem", "dsk"} {
+		for _, conf := range []string{"mem", "dsk", "imm"} {
 			type node struct{ hist []int }
 			seen := map[string]bool{newRefkv().canon(): true}
 			frontier := []node{{}}
@@ -670,6 +695,7 @@ func TestC06(t *testing.T) {
 				want := func(i int) bool { return (!last || r.Mine(i)) && !r.OutOfTime() }
 				bad := rigBatch(len(hists), want, func(rg *rigT, i int) {
 					swamp := fmt.Sprintf("%s/r/h%d", conf, i)
+					c06persistent = conf != "mem"
 					m := newRefkv()
 					o := &obs{}
 					results[i] = o
@@ -776,6 +802,9 @@ func TestC06(t *testing.T) {
 	}
 	_ = sort.Strings
 }
+
+// c06persistent tells the model functions which configuration the running history uses.
+var c06persistent bool
 
 func c06opname(s string) string {
 	if i := strings.Index(s, "("); i >= 0 {
